@@ -364,7 +364,7 @@ func c42Line(c *Case, l *c42Listener, line string, f []string) string {
 		open := len(l.conns)
 		wait := 2*l.idle + 15*time.Millisecond
 		if l.idle > 0 && open == 0 && !l.lastZero.IsZero() {
-			wait = l.idle + 5*time.Second // it must return; waiting ends as soon as it does
+			wait = l.idle + 1500*time.Millisecond // it must return; waiting ends as soon as it does
 		}
 		if l.idle == 0 {
 			wait = 60 * time.Millisecond
